@@ -1,7 +1,7 @@
 from registry_common import COMMON_ASSUME
 
 ENTRY = dict(
-        prop_modules=["C19", "TieTypes", "TieTypesB"],
+        prop_modules=["C19", "TieTypes", "TieTypesB", "TieTypesC", "TieTypesD"],
         title="Primitive wire types pack, unpack and size consistently for every value",
         design_ref="DESIGN.md section 6 / C19",
         technique="Lean 4 theorems over all values / all trailing bytes (codec model of data_types.py) + translator table of the struct formats + correspondence with to_bytes/from_bytes/value/size and with the regulator-data consumer on a real EcoMAX device",
@@ -22,8 +22,10 @@ ENTRY = dict(
                    "CODE TIE (round 8): tools/py2lean_types.py translates the source text of every class of data_types.py (per concrete class: __init__, construction, from_bytes, "
                    "to_bytes, pack, unpack, value, size, __eq__, BitArray.next; DATA_TYPES) to Generated/PyCodeTypes.lean on every run; Props/TieTypes.lean proves for the eight integer "
                    "classes `translated method = intCodec / Inst.step (intInst t)` for ALL values, buffers, offsets and slot states (`*_code_lawful`, `IntClass.sim`, `sim_run`, `data_types_tbl`), Props/TieTypesB.lean `translated BitArray method = bitUnpack / bitValue / bitSize / bitNext / bitPack` (all buffers, raw bytes, indexes); "
-                   "translator + PyPreludeTypes are validated against CPython by harness/pycode_types.py (result and instance slots afterwards). The remaining classes are translated and validated, "
-                   "their model tie is differential.",
+                   "Props/TieTypesC.lean `translated String / VarString / VarBytes = stringCodec / varCodec / varInst.packI` (texts as Lean strings, wire form = UTF-8 bytes, sizes in BYTES; `decode_encode`; "
+                   "`String_code_lawful`, `VarString_code_lawful`, `VarBytes_code_lawful`), Props/TieTypesD.lean `translated IPv4 / IPv6 / Float / Double / Undefined = addrCodec / bitsCodec` (`aton_ntoa`: the prelude's inet_aton inverts inet_ntoa on all 2^32 addresses; "
+                   "`IPv4_code_lawful`, `IPv6_code_lawful`, `Float_code_lawful`, `Double_code_lawful`), the BitArray constructor (`BitArray_construct_sim` = BitInst.step construct) and `DataType.__eq__` as seen from all 17 classes (`*_eq_eq` = `eqModel`); "
+                   "translator + PyPreludeTypes are validated against CPython by harness/pycode_types.py (result and instance slots afterwards).",
         clauses={
             "unpack(pack v) = v, every representable value (ints, float/double bit patterns, IPv4/IPv6 tuples, strings/bytes as byte lists)": "theorem",
             "reported size = number of packed bytes (sizing in bytes, non-ASCII included)": "theorem",
@@ -34,6 +36,7 @@ ENTRY = dict(
             "struct formats / sizes of the ten struct-backed classes": "table",
             "model codecs = data_types.py classes; float<->bits, UTF-8, inet text forms": "correspondence",
             "translated source of the eight integer classes = model codec / instance machine, all inputs (TieTypes)": "theorem (code tie; soft mode: CODE-TIE-BROKEN)",
+            "translated source of String / VarString / VarBytes / IPv4 / IPv6 / Float / Double / Undefined / BitArray(...) / __eq__ = model codecs, all inputs (TieTypesB-D)": "theorem (code tie; soft mode: CODE-TIE-BROKEN)",
         },
         assumptions=COMMON_ASSUME + [
             "strings are modelled as their UTF-8 byte strings, addresses as byte tuples, floats as IEEE bit patterns; the conversions are CPython's",
